@@ -364,7 +364,7 @@ pub fn run(ctx: &mut Ctx) {
         for_all_modes!(shape_ops, 16, (ctx, &l16));
     }
     // long x long pairs and unary operations on long significands
-    let q2: Vec<usize> = if quick { vec![3, 20, 21, 64, 65, 192, 257] } else { vec![3, 8, 19, 20, 21, 24, 33, 53, 64, 65, 128, 129, 192, 193, 256, 257, 384, 449, 513, 1025] };
+    let q2: Vec<usize> = if quick { vec![3, 20, 21, 64, 65, 96, 160, 192, 257] } else { vec![3, 8, 19, 20, 21, 24, 33, 53, 64, 65, 96, 128, 129, 160, 192, 193, 224, 256, 257, 288, 384, 449, 513, 1025] };
     for_all_modes!(shape_pairs, 2, (ctx, &q2));
     let q10: Vec<usize> = if quick { vec![3, 6, 7, 8, 19, 20, 78] } else { vec![3, 5, 6, 7, 8, 9, 10, 19, 20, 21, 38, 39, 58, 59, 78, 116, 155, 309] };
     for_all_modes!(shape_pairs, 10, (ctx, &q10));
